@@ -628,3 +628,146 @@ Proof.
   intros Hm. destruct (bm_bits_spec m Hm) as [Hb _]. apply irs_ok_flat_map. intros [u1 u2] Hp. apply In_pairs_rng in Hp.
   cbn [fst snd] in *. apply irs_ok_map. intros [v1 v2] _. apply bm_forbid2_ok; lia.
 Qed.
+
+(* ---------- ranks: the increasing enumeration of a finite set of vertices ---------- *)
+Definition memb (v : Z) (S : list Z) : bool := existsb (Z.eqb v) S.
+Lemma memb_true v S : memb v S = true <-> In v S.
+Proof.
+  unfold memb. rewrite existsb_exists. split.
+  - intros [x [Hx E]]. apply Z.eqb_eq in E. now subst.
+  - intros H. exists v. split; [assumption|apply Z.eqb_refl].
+Qed.
+
+Lemma filter_len_le {A} (p q : A -> bool) l :
+  (forall x, In x l -> p x = true -> q x = true) -> len (filter p l) <= len (filter q l).
+Proof.
+  induction l as [|x t IH]; intros H; [cbn; lia|]. cbn [filter].
+  assert (IH' : len (filter p t) <= len (filter q t)) by (apply IH; intros y Hy; apply H; now right).
+  destruct (p x) eqn:Px.
+  - rewrite (H x (or_introl eq_refl) Px), !len_cons. lia.
+  - destruct (q x); rewrite ?len_cons; lia.
+Qed.
+Lemma filter_len_lt {A} (p q : A -> bool) l x :
+  (forall y, In y l -> p y = true -> q y = true) -> In x l -> q x = true -> p x = false ->
+  len (filter p l) < len (filter q l).
+Proof.
+  induction l as [|z t IH]; intros H Hin Qx Px; [destruct Hin|]. cbn [filter].
+  assert (Hle : len (filter p t) <= len (filter q t)) by (apply filter_len_le; intros y Hy; apply H; now right).
+  destruct Hin as [->|Hin].
+  - rewrite Px, Qx, len_cons. lia.
+  - assert (IH' : len (filter p t) < len (filter q t)) by (apply IH; auto; intros y Hy; apply H; now right).
+    destruct (p z) eqn:Pz.
+    + rewrite (H z (or_introl eq_refl) Pz), !len_cons. lia.
+    + destruct (q z); rewrite ?len_cons; lia.
+Qed.
+
+Lemma NoDup_map_inj_in {A B} (f : A -> B) l :
+  (forall x y, In x l -> In y l -> f x = f y -> x = y) -> NoDup l -> NoDup (map f l).
+Proof.
+  induction l as [|x t IH]; intros Hinj Hnd; [constructor|]. inversion Hnd as [|? ? Hx Ht]; subst. cbn [map]. constructor.
+  - intros Hin. apply in_map_iff in Hin as [y [E Hy]]. apply Hx. rewrite (Hinj x y); auto; [now left|now right].
+  - apply IH; [|assumption]. intros a b Ha Hb. apply Hinj; now right.
+Qed.
+
+(* number of elements of S that are <= v *)
+Definition rank (S : list Z) (N v : Z) : Z := len (filter (fun u => memb u S && (u <=? v)) (rng N)).
+
+Lemma rank_mono S N u v : u <= v -> rank S N u <= rank S N v.
+Proof.
+  intros H. unfold rank. apply filter_len_le. intros x _ Hx. apply andb_true_iff in Hx as [H1 H2].
+  apply andb_true_iff. split; [assumption|]. apply Z.leb_le. apply Z.leb_le in H2. lia.
+Qed.
+Lemma rank_strict S N u v : u < v -> In v S -> 1 <= v <= N -> rank S N u < rank S N v.
+Proof.
+  intros H Hv Hr. unfold rank. apply (filter_len_lt _ _ _ v).
+  - intros x _ Hx. apply andb_true_iff in Hx as [H1 H2]. apply andb_true_iff. split; [assumption|].
+    apply Z.leb_le. apply Z.leb_le in H2. lia.
+  - now apply In_rng.
+  - apply andb_true_iff. split; [now apply memb_true|apply Z.leb_refl].
+  - apply andb_false_iff. right. apply Z.leb_gt. lia.
+Qed.
+Lemma rank_pos S N v : In v S -> 1 <= v <= N -> 1 <= rank S N v.
+Proof.
+  intros Hv Hr. pose proof (rank_strict S N (v - 1) v ltac:(lia) Hv Hr). unfold rank in *.
+  pose proof (len_nonneg (filter (fun u => memb u S && (u <=? v - 1)) (rng N))). lia.
+Qed.
+Lemma rank_le S N v : NoDup S -> rank S N v <= len S.
+Proof.
+  intros Hnd. unfold rank, len. apply inj_le. apply NoDup_incl_length.
+  - apply NoDup_filter. apply NoDup_rng.
+  - intros x Hx. apply filter_In in Hx as [_ Hx]. apply andb_true_iff in Hx as [Hx _]. now apply memb_true.
+Qed.
+Lemma rank_inj S N u v : In u S -> In v S -> (forall x, In x S -> 1 <= x <= N) -> rank S N u = rank S N v -> u = v.
+Proof.
+  intros Hu Hv Hr E. destruct (Z.lt_trichotomy u v) as [L|[L|L]]; [exfalso|assumption|exfalso].
+  - pose proof (rank_strict S N u v L Hv (Hr v Hv)). lia.
+  - pose proof (rank_strict S N v u L Hu (Hr u Hu)). lia.
+Qed.
+Lemma rank_surj S N : NoDup S -> (forall x, In x S -> 1 <= x <= N) ->
+  forall i, 1 <= i <= len S -> exists v, In v S /\ rank S N v = i.
+Proof.
+  intros Hnd Hr i Hi.
+  assert (Hincl : incl (rng (len S)) (map (rank S N) S)).
+  { apply NoDup_length_incl.
+    - apply NoDup_map_inj_in; [|assumption]. intros x y Hx Hy. now apply rank_inj.
+    - rewrite map_length. unfold rng. rewrite length_zrange. unfold len. lia.
+    - intros r Hin. apply in_map_iff in Hin as [v [<- Hv]]. apply In_rng.
+      pose proof (rank_pos S N v Hv (Hr v Hv)). pose proof (rank_le S N v Hnd). lia. }
+  specialize (Hincl i (proj2 (In_rng i (len S)) Hi)). apply in_map_iff in Hincl as [v [E Hv]]. now exists v.
+Qed.
+
+(* the i-th smallest element of S *)
+Definition select (S : list Z) (N i : Z) : Z :=
+  match find (fun v => memb v S && (rank S N v =? i)) (rng N) with Some v => v | None => 0 end.
+
+Lemma select_spec S N i : NoDup S -> (forall x, In x S -> 1 <= x <= N) -> 1 <= i <= len S ->
+  In (select S N i) S /\ rank S N (select S N i) = i.
+Proof.
+  intros Hnd Hr Hi. unfold select. destruct (rank_surj S N Hnd Hr i Hi) as [v [Hv Ev]].
+  destruct (find (fun v => memb v S && (rank S N v =? i)) (rng N)) as [w|] eqn:F.
+  - apply find_some in F as [_ F]. apply andb_true_iff in F as [F1 F2]. apply memb_true in F1. apply Z.eqb_eq in F2. now split.
+  - exfalso. pose proof (find_none _ _ F v (proj2 (In_rng v N) (Hr v Hv))) as Hn. cbn beta in Hn.
+    rewrite (proj2 (memb_true v S) Hv), Ev, Z.eqb_refl in Hn. discriminate.
+Qed.
+
+Lemma sorted_enum S N : NoDup S -> (forall x, In x S -> 1 <= x <= N) ->
+  exists psi, (forall i, 1 <= i <= len S -> In (psi i) S) /\
+              (forall i1 i2, 1 <= i1 -> i1 < i2 -> i2 <= len S -> psi i1 < psi i2) /\
+              (forall v, In v S -> exists i, 1 <= i <= len S /\ psi i = v).
+Proof.
+  intros Hnd Hr. exists (select S N). split; [|split].
+  - intros i Hi. apply (select_spec S N i Hnd Hr Hi).
+  - intros i1 i2 A1 A2 A3. destruct (select_spec S N i1 Hnd Hr ltac:(lia)) as [_ E1].
+    destruct (select_spec S N i2 Hnd Hr ltac:(lia)) as [_ E2].
+    destruct (Z.lt_ge_cases (select S N i1) (select S N i2)) as [|Hge]; [assumption|exfalso].
+    pose proof (rank_mono S N _ _ Hge). lia.
+  - intros v Hv. exists (rank S N v). pose proof (rank_pos S N v Hv (Hr v Hv)). pose proof (rank_le S N v Hnd).
+    split; [lia|]. destruct (select_spec S N (rank S N v) Hnd Hr ltac:(lia)) as [Hin E].
+    now apply (rank_inj S N).
+Qed.
+
+(* ---------- writing a number in binary ---------- *)
+Lemma b2z_testbit x n : 0 <= n -> b2z (Z.testbit x n) = (x / 2 ^ n) mod 2.
+Proof. intros Hn. rewrite <- Z.testbit_spec' by assumption. now destruct (Z.testbit x n). Qed.
+
+Lemma bits_value_testbit a x : forall q base,
+  (forall p, 1 <= p <= Z.of_nat q -> a (base + p) = Z.testbit x (Z.of_nat q - p)) ->
+  bits_value a q base = x mod 2 ^ Z.of_nat q.
+Proof.
+  induction q as [|q IH]; intros base H; cbn [bits_value].
+  - cbn. now rewrite Z.mod_1_r.
+  - rewrite (IH (base + 1)).
+    2:{ intros p Hp. replace (base + 1 + p) with (base + (p + 1)) by lia. rewrite H by lia. f_equal. lia. }
+    rewrite (H 1) by lia. replace (Z.of_nat (S q) - 1) with (Z.of_nat q) by lia.
+    rewrite b2z_testbit by lia. rewrite pow2_succ. pose proof (pow2_pos q).
+    rewrite (Z.mul_comm 2), Z.rem_mul_r by lia. lia.
+Qed.
+
+Lemma bm_value_enc b phi i : 0 <= b -> 1 <= i -> 0 <= phi i - 1 < 2 ^ b -> bm_value (enc_bits b phi) b i = phi i - 1.
+Proof.
+  intros Hb Hi Hr. unfold bm_value. rewrite (bits_value_testbit _ (phi i - 1)).
+  - rewrite Z2Nat.id by lia. apply Z.mod_small. lia.
+  - intros p Hp. rewrite Z2Nat.id in * by lia. unfold enc_bits.
+    assert (E : ((i - 1) * b + p - 1) / b = i - 1) by (symmetry; apply Z.div_unique with (r := p - 1); lia).
+    rewrite E. f_equal; [f_equal; f_equal; lia|lia].
+Qed.
